@@ -26,20 +26,34 @@ def chain_matrix(weights=(5.0, 6.0, 7.0)):
     return m
 
 
-def local_drives(steps=STEPS):
-    om = torch.tensor([[1.0, 2.0, 3.0, 4.0]] * steps, dtype=torch.complex128)
-    de = torch.tensor([[0.1, 0.2, 0.3, 0.4]] * steps, dtype=torch.complex128)
-    ph = torch.tensor([[0.01, 0.02, 0.03, 0.04]] * steps, dtype=torch.complex128)
+def local_drives(steps=STEPS, n=4):
+    om = torch.tensor([[1.0 + k for k in range(n)]] * steps, dtype=torch.complex128)
+    de = torch.tensor([[0.1 * (k + 1) for k in range(n)]] * steps, dtype=torch.complex128)
+    ph = torch.tensor([[0.01 * (k + 1) for k in range(n)]] * steps, dtype=torch.complex128)
     return om, de, ph
 
 
-def make_impl(optimize, bad_atoms=None, observables=None, steps=STEPS, autosave_dt=None):
+def grid_matrix(rows=2, cols=3, c6=5.0):
+    """row-major rows x cols grid, 1/r^6 couplings: the bandwidth optimiser returns a permutation that is
+    NOT its own inverse (2x3: [5, 2, 4, 1, 3, 0]), which tells perm from inv_perm apart"""
+    n = rows * cols
+    m = torch.zeros(n, n, dtype=torch.float64)
+    for a in range(n):
+        for b in range(a + 1, n):
+            d2 = (a // cols - b // cols) ** 2 + (a % cols - b % cols) ** 2
+            m[a, b] = m[b, a] = c6 / d2 ** 3
+    return m
+
+
+def make_impl(optimize, bad_atoms=None, observables=None, steps=STEPS, autosave_dt=None, matrix=None):
     from native_util import make_sequence_data
     from emu_mps import MPSConfig
     import emu_mps.mps_backend_impl as M
     from pulser.backend import Occupation
-    om, de, ph = local_drives(steps)
-    sd = make_sequence_data(4, steps, matrix=chain_matrix(), omega=om, delta=de, phi=ph,
+    matrix = chain_matrix() if matrix is None else matrix
+    n = matrix.shape[0]
+    om, de, ph = local_drives(steps, n)
+    sd = make_sequence_data(n, steps, matrix=matrix, omega=om, delta=de, phi=ph,
                             bad_atoms=bad_atoms, state_prep_error=0.1 if bad_atoms is not None else 0.0)
     kw = {} if autosave_dt is None else {"autosave_dt": autosave_dt}
     cfg = MPSConfig(observables=observables if observables is not None else [Occupation(evaluation_times=[1.0])],
@@ -64,9 +78,9 @@ def handed_drives(impl):
     return calls
 
 
-def run(optimize, bad_atoms=None):
+def run(optimize, bad_atoms=None, matrix=None):
     from emu_mps import MPSBackend
-    impl, sd, cfg = make_impl(optimize, bad_atoms)
+    impl, sd, cfg = make_impl(optimize, bad_atoms, matrix=matrix)
     impl.init()
     res = MPSBackend._run(impl)
     return impl, impl.permute_results(res, optimize)
